@@ -216,6 +216,10 @@ def conclude(prop, tier, res, model, t0, extra_cov=None):
     # an engine panic during the operations this property quantifies over counts against this property
     mine = [m for m in res.mm if m["rule"].startswith(RULES[prop]) or m["rule"].startswith("PANIC/")]
     other = [m for m in res.mm if m not in mine]
+    other_rules = {}
+    for m in other:
+        k = m["rule"] + (" [" + m["class"] + "]" if m.get("class") else "")
+        other_rules[k] = other_rules.get(k, 0) + 1
     for m in other[:5]:
         vf.log("note: mismatch outside %s (judged by its own check): %s %s" % (prop, m["rule"], m.get("class", "")))
     known, new = vf.classify(prop, mine)
@@ -240,6 +244,7 @@ def conclude(prop, tier, res, model, t0, extra_cov=None):
         "events_judged": res.events,
         "event_kinds": res.counts,
         "mismatches_total": len(res.mm),
+        "mismatches_of_other_properties_seen_on_the_way": other_rules,
         "mismatches_known_findings": len(known),
         "samples": [tc.trim(s) for s in res.samples],
         "rule": "each event is one call on the real board; TLC (GameTrace.tla) recomputes the expected observation from Chess.tla",
